@@ -238,12 +238,16 @@ def finish(rep, explanation, trusted_base, assumptions, level='other', checker_c
     """write evidence + violation files, print the verdict lines, return the exit code"""
     known = load_known()
     known_keys = {k['key']: k for k in known.get('findings', []) if k.get('property') == rep.prop}
-    vdir = os.path.join(EVID, 'violations')
+    registered = os.path.realpath(rep.repo) == '/repo'
+    vdir = os.path.join(EVID, 'violations') if registered else os.path.join(CACHE, 'scratch', str(os.getpid()))
     os.makedirs(vdir, exist_ok=True)
     # remove stale violation files of this property
     for f in os.listdir(vdir):
         if f.startswith(rep.prop + '-'):
-            os.unlink(os.path.join(vdir, f))
+            try:
+                os.unlink(os.path.join(vdir, f))
+            except FileNotFoundError:
+                pass
     real = []
     knownhits = []
     for v in rep.violations:
@@ -307,8 +311,7 @@ def finish(rep, explanation, trusted_base, assumptions, level='other', checker_c
     ev['coverage'].update(rep.extra)
     os.makedirs(EVID, exist_ok=True)
     # evidence of a scratch-repo run must not overwrite the registered evidence
-    target = os.path.join(EVID, rep.prop + '.json') if os.path.realpath(rep.repo) == '/repo' else \
-        os.path.join(CACHE, 'scratch-evidence-%s-%d.json' % (rep.prop, os.getpid()))
+    target = os.path.join(EVID, rep.prop + '.json') if registered else os.path.join(vdir, 'evidence-%s.json' % rep.prop)
     tmp = target + '.tmp.%d' % os.getpid()
     with open(tmp, 'w') as f:
         json.dump(ev, f, indent=1, default=str)
